@@ -34,7 +34,7 @@ def get(prog, rep, rule, path):
         return None
 
 
-def run(rep, tier="quick", replay=None, evidence_dir=None):
+def run(rep, tier="quick", replay=None, evidence_dir=None, collect_only=False):
     prog = Program(factsmod.extract())
     rep.rule("C18.R1", "header = C3 01 + fingerprint bytes 0..7; fingerprint is Rabin")
     rep.rule("C18.R2", "reader checks the whole header with read_exact + compare before decoding")
@@ -235,6 +235,8 @@ def run(rep, tier="quick", replay=None, evidence_dir=None):
                    why + ": a header built from another schema object (e.g. a freshly derived one) carries a fingerprint that readers of the real schema reject", b.loc(bi))
     rep.floor("C18.R5", "default-header sites", n5, 4)
 
+    if collect_only:
+        return rep
     rep.floor("C18", "obligations", len(rep.obligations), 18)
     rep.not_decided = ["fingerprint values and bit-level header mismatch for concrete messages", "round trip of values through both readers (needs execution)"]
     return common.finish(rep, level="other",
